@@ -1,5 +1,5 @@
 Require Import LV.Model.SmModel.
 Require Import ExtrOcamlBasic.
 Extraction "c04_model" exec dinit step run init d_st d_tx d_rx
-  connected neg_done sm_enabled sm_support can_resume r_sent sent_nr handled_nr sq smq sm_id previd nconn crashed
+  connected neg_done sm_enabled sm_support can_resume r_sent sent_nr handled_nr sq smq sm_id previd nconn
   q_gid q_owner q_text q_written q_resend s_gid s_h s_owner s_text b_sent b_handled b_id b_sq b_smq.
